@@ -25,6 +25,8 @@ CRUDS = ["C", "R", "D", "CR", "CD", "RD", "CRD"]
 ROUTES = ["/api/{n}", "/v1/x/{n}"]
 APPS = ["rest_api", "app"]
 PKS = ["explicit", "by_name", "id"]
+# the same subsets with their letters in every other order (gen_routes documents every permutation as a legal value)
+CRUD_ORDERS = ["RC", "DC", "DR", "CDR", "RCD", "RDC", "DCR", "DRC"]
 COLS = [
     ("count", OrderedDict((("doc", "the count"), ("typ", "int"), ("default", 5)))),
     ("label", OrderedDict((("doc", "the label"), ("typ", "Optional[str]")))),
@@ -72,6 +74,10 @@ def cases(tier, seed):
     # (B) pipeline
     for name, pk, crud, route, app in itertools.product(NAMES, PKS, CRUDS, ROUTES, APPS):
         yield dict(kind="pipeline", app=app, models=[dict(name=name, pk=pk, ncols=2, crud=crud, route=route.format(n=slug(name)))])
+    for name, pk, crud, app in itertools.product(NAMES[:2], PKS, CRUD_ORDERS, APPS):
+        yield dict(kind="pipeline", app=app, models=[dict(name=name, pk=pk, ncols=2, crud=crud, route="/api/" + slug(name))])
+    for cruds, same_file in itertools.product(itertools.product(CRUD_ORDERS, repeat=2), (False, True)):
+        yield dict(kind="pipeline", app="rest_api", same_file=same_file, models=[dict(name=n, pk=p, ncols=1, crud=c, route="/api/" + slug(n)) for n, p, c in zip(("Config", "User"), ("explicit", "id"), cruds)])
     # two models, separate or shared routes file, every pair of primary-key kinds (equal kinds give equal primary-key *names*)
     for cruds, same_file, pks in itertools.product(itertools.product(("C", "RD", "CRD", "R"), repeat=2), (False, True), itertools.product(PKS, repeat=2)):
         yield dict(kind="pipeline", app="rest_api", same_file=same_file, models=[dict(name=n, pk=p, ncols=1, crud=c, route="/api/" + slug(n)) for n, p, c in zip(("Config", "User"), pks, cruds)])
@@ -251,7 +257,7 @@ def describe(tier):
         "non-empty subsets of {C,R,D} x 2 route prefixes (x 2 app names in the pipeline); documents with 1, 2 (all 49 CRUD pairs) and 3 models; two models of two different "
         "applications in one shared (or two) routes file(s), one document per application; through "
         "openapi.emit.openapi directly and through sqlalchemy.emit -> gen_routes -> upsert_routes -> openapi_bulk; a case = one document",
-        bounds=dict(names=NAMES, cruds=CRUDS, routes=ROUTES, apps=APPS, pks=PKS),
+        bounds=dict(names=NAMES, cruds=CRUDS, crud_letter_orders=CRUD_ORDERS, routes=ROUTES, apps=APPS, pks=PKS),
         exhaustive=True,
         assumptions=["expected operations: C -> POST on the collection path, R -> GET and D -> DELETE on the item path '<route>/{<pk>}'", "SQLAlchemy models are generated by cdd itself; nothing is executed"],
     )
